@@ -234,7 +234,7 @@ def run(ctx):
     plans = [(2, 4, '{0, 1, 2, 3}'), (3, 4, '{0, 1, 2, 3}'), (4, 4, '{0, 2}')] if not quick else [(2, 4, '{0, 1, 2, 3}'), (3, 4, '{0, 1, 3}'), (4, 4, '{0, 2}')]
     plans.append((3, 64, '{0, 24, 32, 63}'))       # nearly duplicated columns (condition number 127) on which the third depends unequally
     if not quick:
-        plans.append((3, 1000, '{0, 500, 999}'))
+        plans.append((3, 128, '{0, 40, 64, 127}'))         # condition number 255 (larger denominators overflow TLC's 32-bit integers)
     for d, q, mags in plans:
         r = ctx.tlc('CondGauss d=%d q=%d' % (d, q), 'CondGauss', CFG % (d, q, mags), workers=1, timeout=1500)
         cs = [c[0] for c in r.tagged('CASE')]
